@@ -15,7 +15,7 @@ import (
 // C19 — the ordering functions are lawful orders that respect causality.
 //
 // Entries are built directly over times {1,2,3} x clock ids {A, B, a proper prefix of A, two ids differing
-// only in letter case} x hashes {h1,h2,h3}: all 45 entries, all 2 025 ordered pairs, all 91 125 ordered triples, and
+// only in letter case, the empty id} x hashes {h1,h2,h3}: all 54 entries, all 2 916 ordered pairs, all 157 464 ordered triples, and
 // Sort on every permutation of every subset of <= 4 (quick) / <= 5 (thorough) entries.
 
 type c19Case struct {
@@ -51,8 +51,9 @@ func c19Init() {
 	idP := idA[:3] // proper prefix of A
 	// two ids that differ only in letter case (and are otherwise valid UTF-8): comparison must be bytewise
 	idU, idL := []byte("Ab-writer"), []byte("aB-writer")
-	ids := [][]byte{idA, idB, idP, idU, idL}
-	idn := []string{"A", "B", "Aprefix", "Ab-writer", "aB-writer"}
+	// the empty id: a clock value like any other for the comparators (it sorts before every other id at equal time)
+	ids := [][]byte{idA, idB, idP, idU, idL, {}}
+	idn := []string{"A", "B", "Aprefix", "Ab-writer", "aB-writer", "empty"}
 	var hs []cid.Cid
 	for i := 0; i < 3; i++ {
 		c, _ := cid.NewPrefixV1(cid.DagCBOR, 0x12).Sum([]byte(fmt.Sprintf("h%d", i)))
@@ -293,10 +294,10 @@ func c19Run(p *run.Part, tier string) {
 	for k := 2; k <= maxK; k++ {
 		limit := n
 		if k == 4 {
-			limit = 30 // 4-subsets from the first 30 grid entries (times 1-2, all ids and hashes)
+			limit = 36 // 4-subsets from the first 36 grid entries (times 1-2, all ids and hashes)
 		}
 		if k == 5 {
-			limit = 15 // 5-subsets from the first 15 grid entries (time 1, all ids and hashes)
+			limit = 18 // 5-subsets from the first 18 grid entries (time 1, all ids and hashes)
 		}
 		var all [][]int
 		subsets(limit, k, func(s []int) { all = append(all, s) })
@@ -312,14 +313,14 @@ func c19Run(p *run.Part, tier string) {
 	var undef *entry.Entry
 	_, err = sorting.Compare(undef, c19Grid[0])
 	c19Law(p, "compare-rejects-undefined", "Compare", []int{0}, err != nil, "Compare(undefined, e) returned no error")
-	p.Sample(4, c19Case{Law: "transitive", Fn: "SortByEntryHash", E: []int{0, 4, 44}})
+	p.Sample(4, c19Case{Law: "transitive", Fn: "SortByEntryHash", E: []int{0, 4, 53}})
 	p.Sample(4, map[string]string{"grid_entry_0": c19Desc[0], "grid_entry_13": c19Desc[13], "grid_entry_26": c19Desc[26]})
 }
 
 func init() {
 	register(&Check{ID: "C19", Run: func(p *run.Part, tier string) {
-		p.Rule = "45 entries over times{1,2,3} x ids{A,B,prefix of A,Ab-writer,aB-writer} x hashes{h1,h2,h3}; every ordered pair and triple; Sort on every permutation of every subset of the stated size; non-trivial = distinct ordered pairs"
-		p.Assume("the law set is the statement's; entries outside the 3x5x3 grid differ from grid entries only by values that the comparators treat through the same three comparisons (int compare, bytes.Compare, strings.Compare)")
+		p.Rule = "54 entries over times{1,2,3} x ids{A,B,prefix of A,Ab-writer,aB-writer,empty} x hashes{h1,h2,h3}; every ordered pair and triple; Sort on every permutation of every subset of the stated size; non-trivial = distinct ordered pairs"
+		p.Assume("the law set is the statement's; entries outside the 3x6x3 grid differ from grid entries only by values that the comparators treat through the same three comparisons (int compare, bytes.Compare, strings.Compare)")
 		c19Run(p, tier)
 	}, Replay: func(p *run.Part, check string, raw []byte) {
 		c19Init()
